@@ -1,9 +1,98 @@
 """C09: the per-function contracts of the resolution machinery, plus the converter programs with a call history (genprog/conv.py): a
-per-call `recipe=` is placed FIRST in resolution order for that call and is not consulted (nor skipped) because of an earlier call."""
+per-call `recipe=` is placed FIRST in resolution order for that call and is not consulted (nor skipped) because of an earlier call.
+
+`create_router_for_located_request` folds runs of exact-origin checkers into one dict item.  Its parts are under contract
+(contracts/routers.py: the combiner emits the pending run once and empties it, both routers return the first match at or after the
+offset); the statement "walking the folded router consults the same handlers in the same order as walking the plain recipe" joins them
+through live checker objects (`ExactOriginLSC.__eq__`, `normalize_type`, dict hashing of origins) and is checked here on a BOUNDED family
+of recipes — labelled bounded, not counted as proved."""
+import itertools
+
 LEVEL_TEXT = ("per-function contracts on routers, request bus, chaining, mediator; per-call recipes of converters resolved first and only for "
-              "their call (GENPROG converter histories)")
+              "their call (GENPROG converter histories); folded vs plain router: bounded enumeration of recipes")
+
+
+def router_equivalence(tier):
+    import typing
+
+    from adaptix import P
+    from adaptix._internal.morphing.request_cls import LoaderRequest
+    from adaptix._internal.provider.loc_stack_filtering import ExactOriginLSC, LocStack, create_loc_stack_checker
+    from adaptix._internal.provider.located_request import LocatedRequestChecker
+    from adaptix._internal.provider.location import GenericParamLoc, InputFieldLoc, TypeHintLoc
+    from adaptix._internal.model_tools.definitions import NoDefault
+    from adaptix._internal.retort import routers
+    from adaptix._internal.retort.operating_retort import OperatingRetort
+
+    class Const:
+        def __init__(self, ans):
+            self.ans = ans
+
+        def check_request(self, mediator, request):
+            return self.ans
+
+    def exact(tp):
+        return lambda: LocatedRequestChecker(ExactOriginLSC(tp))
+
+    def pred(p):
+        return lambda: LocatedRequestChecker(create_loc_stack_checker(p))
+    atoms = [("Xint", exact(int)), ("Xstr", exact(str)), ("Xlist", exact(list)), ("Xbool", exact(bool)), ("T", lambda: Const(True)),
+             ("F", lambda: Const(False)), ("Pint", pred(int)), ("Pa", pred(P.a))]
+    field = InputFieldLoc(type=int, field_id="a", default=NoDefault(), metadata={}, is_required=True)
+    stacks = [
+        ("int", LocStack(TypeHintLoc(type=int))), ("str", LocStack(TypeHintLoc(type=str))), ("bool", LocStack(TypeHintLoc(type=bool))),
+        ("List[int]", LocStack(TypeHintLoc(type=typing.List[int]))), ("list", LocStack(TypeHintLoc(type=list))),
+        ("field a:int", LocStack(TypeHintLoc(type=dict), field)),
+        ("generic param str", LocStack(TypeHintLoc(type=typing.List[str]), GenericParamLoc(type=str, generic_pos=0))),
+        ("float", LocStack(TypeHintLoc(type=float))),
+        ("5 (not a type)", LocStack(TypeHintLoc(type=5))), ("'x' (unresolvable)", LocStack(TypeHintLoc(type="x"))),
+        ("bare ClassVar", LocStack(TypeHintLoc(type=typing.ClassVar))),
+    ]
+    max_len = 5 if tier == "thorough" else 4
+
+    def walk(router, request):
+        out, off = [], 0
+        for _ in range(64):
+            try:
+                h, off2 = router.route_handler(None, request, off)
+            except StopIteration:
+                return out
+            if not (isinstance(off2, int) and off2 > off):
+                return out + [("offset-not-increasing", off, off2)]
+            out.append(h)
+            off = off2
+        return out + ["no-termination"]
+    viol, n = [], 0
+    for length in range(0, max_len + 1):
+        for combo in itertools.product(atoms, repeat=length):
+            recipe = [(mk(), f"h{i}:{name}") for i, (name, mk) in enumerate(combo)]
+            plain = routers.SimpleRouter(list(recipe))
+            folded = routers.create_router_for_located_request(list(recipe))
+            via_retort = OperatingRetort._create_router(None, LoaderRequest, list(recipe))
+            for sname, stack in stacks:
+                n += 1
+                request = LoaderRequest(loc_stack=stack)
+                try:
+                    want = walk(plain, request)
+                    got = walk(folded, request)
+                    got2 = walk(via_retort, request)
+                except Exception as e:  # noqa: BLE001
+                    want, got, got2 = "no exception", f"{type(e).__name__}: {e}"[:200], None
+                if want != got or (got2 is not None and want != got2):
+                    if len(viol) < 40:
+                        viol.append({"unit": "create_router_for_located_request", "clause": "same-handlers-same-order",
+                                     "witness": f"{'-'.join(a for a, _ in combo)} on {sname}"[:160],
+                                     "w": {"input": f"recipe [{', '.join(a for a, _ in combo)}], request for {sname}",
+                                           "native_outcome": f"folded router consults {got!r} (through the retort: {got2!r}), "
+                                                             f"recipe order gives {want!r}"[:400]}})
+    return {"obligations": 0, "discharged": 0, "violations": viol, "solver_time": 0.0,
+            "bounded": [{"unit": "create_router_for_located_request == walking the recipe in order (handlers consulted, in order)",
+                         "bound": f"all recipes of length <= {max_len} over {len(atoms)} checker kinds (exact origins incl. repeated ones, "
+                                  f"constant, predicate-built) x {len(stacks)} requests = {n} walks"}],
+            "samples": [{"router_walks": n, "failed": len(viol)}],
+            "assumptions": ["folded-router equivalence is checked only on this bounded family of recipes"]}
 
 
 def extra_checks(tier, seed):
     from genprog.check import extra_for_property
-    return [extra_for_property("C09", tier, seed, group="conv")]
+    return [extra_for_property("C09", tier, seed, group="conv"), router_equivalence(tier)]
